@@ -21,8 +21,11 @@ Lemma enum_shapes :
                                                        CLabel "value" (COpt (CSeq [CLit [61]; CRef 56; CRef 34]));
                                                        CRef 56; CLabel "annotations" (COpt (CRef 31));
                                                        COpt (CRef 46)]))
-  /\ nth_error rules 46 = Some (CClass [44; 59] [] false).
-Proof. vm_compute. repeat split; reflexivity. Qed.
+  /\ class_rule 46 (fun c => in_chars c [44; 59] || in_ranges c []).
+Proof.
+  split; [vm_compute; reflexivity|]. split; [vm_compute; reflexivity|].
+  eexists; eexists; split; [vm_compute; reflexivity | vm_compute; reflexivity].
+Qed.
 
 (** ** more rules of the calculus *)
 Lemma E_plus_fail : forall e1 cr st fr v st1 fr1,
@@ -52,7 +55,7 @@ Qed.
 (** ListSeparator (46) *)
 Definition p_sep (c : Z) : bool := in_chars c [44; 59] || in_ranges c [].
 Lemma sep_matches : matches_char (CRef 46) p_sep 2.
-Proof. destruct enum_shapes as (_ & _ & H46). exact (ref_matches 46 _ _ 1 H46 (class_matches [44; 59] [])). Qed.
+Proof. destruct enum_shapes as (_ & _ & H46). exact (class_rule_matches 46 _ H46). Qed.
 
 Lemma sep_opt_none : forall cr s o es fr,
   head_not [44; 59] s -> evals (COpt (CRef 46)) cr (st_of s o es) fr (Done true VNil (st_of s o es) fr).
